@@ -389,6 +389,31 @@ Proof.
     inversion H; subst rg'. unfold reg_set_next. cbn [reg_disclose reg_callees]. exact (OK _ _ Hr).
 Qed.
 
+(** the dealer a protocol-violating CALL is aborted in: only a round-robin
+    cursor may have moved *)
+Lemma call_abort_dealer_shape : forall lk d caller req opts proc oracle,
+    call_abort_dealer lk d caller req opts proc oracle = d \/
+    exists r next, match_procedure d proc oracle = Some r /\
+                   call_abort_dealer lk d caller req opts proc oracle = call_d0 d r next.
+Proof.
+  intros. unfold call_abort_dealer.
+  destruct (match_procedure d proc oracle) as [r|]; [|now left].
+  destruct (reg_callees r) eqn:Ec; [now left|]. rewrite <- Ec.
+  destruct (opt_bool opts "progress" && _); [now left|].
+  destruct (cget _ _); [now left|].
+  destruct (select_callee r oracle) as [[cid next]|]; [|now left].
+  destruct (lk cid); [|now left].
+  right. exists r, next. split; reflexivity.
+Qed.
+
+Lemma call_abort_dk : forall lk d caller req opts proc oracle,
+    dealer_wf lk d -> dk d [] (call_abort_dealer lk d caller req opts proc oracle).
+Proof.
+  intros lk d caller req opts proc oracle WF.
+  destruct (call_abort_dealer_shape lk d caller req opts proc oracle) as [->|(r & next & Hm & ->)]; [apply dk_refl|].
+  apply call_d0_dk; [apply noev_nil|]. apply (best_match_sound lk d WF) in Hm. destruct Hm as [Hr _]. exact Hr.
+Qed.
+
 Lemma call_c12 : forall cfg lk now d caller req opts proc args kw oracle,
     dealer_wf lk d -> lookup_ok lk ->
     match call cfg lk now d caller req opts proc args kw oracle with
